@@ -74,6 +74,18 @@ CHECKS["C11"] = dict(
     note=NOTE_BASE + "The one parser fact used by the junk theorems (an accepted text contains a known-tag opener) is a hypothesis of those theorems, checked on every recorded parser answer.",
     technique="Coq proof (generic in the parser; invariants by induction on fuel/length) + control-flow correspondence with recorded parser answers",
     design="4/C11")
+CHECKS["C02"] = dict(
+    text="Theorems framing_lossless_ordered_prompt and each_message_delivered_by_the_call_that_completes_it: for every stream "
+         "junk/message/junk/... (any number of messages, junk free of known-tag openers), EVERY partition into pieces, threshold disabled or not "
+         "smaller than the messages: all calls terminate, deliveries are exactly the messages in order, each once, and nothing is overdue after any "
+         "call (structural induction over the stream, then over the pieces). Generic in the parser; its premises (Framing.spelling per message spelling: "
+         "parsed whole, no proper prefix parses, opener at 0, single final '>', fits; and parse_needs_opener) are decidable and evaluated by the model on "
+         "every generated spelling (spell_check_sound) - PARTIAL only in that they are not yet theorems of the concrete XML model. Correspondence: real "
+         "Buffer and the three real receive loops vs the model with the concrete XML+message parser; every 1-cut, every 2-cut of short streams, "
+         "per-character, random cuts, three thresholds.",
+    note=NOTE_BASE + "PARTIAL: prefix-freeness of well-formed documents and 'accepted text contains a known opener' are premises checked per instance, not proved for Xml.Lex.",
+    technique="Coq proof (structural induction over segmented streams; generic parser with decidable premises) + correspondence incl. real receive loops",
+    design="4/C02")
 PENDING = {}
 props = [json.loads(l) for l in open(os.path.join(V, "properties.jsonl"))]
 checks, na = [], []
